@@ -197,6 +197,19 @@ def check_tree(U, d, rec: Rec, route="direct", at=None):
                 bad(f"foreign-{name}-noraise", f"{name}(node outside the tree) did not raise KeyError", path=p)
             except KeyError:
                 pass
+        # both arguments outside the tree (the same foreign node twice included): the query node decides - KeyError
+        for q in paths:
+            fm = findex[q]
+            for name, call in (("is_ancestor", lambda: tr.is_ancestor(fn, fm)), ("get_depth-relative", lambda: tr.get_depth(fn, relative_to=fm)),
+                               ("get_depth-relative-unchecked", lambda: tr.get_depth(fn, relative_to=fm, check_ancestor=False))):
+                ev()
+                try:
+                    call()
+                    bad(f"foreign-foreign-{name}-noraise", f"{name}(node outside the tree, another node outside the tree) did not raise KeyError", path=p, other=q)
+                except KeyError:
+                    pass
+                except ValueError:
+                    bad(f"foreign-foreign-{name}-noraise", f"{name}(node outside the tree, another node outside the tree) raised ValueError, not KeyError", path=p, other=q)
         ev()
         if tr.is_in_tree(fn) or tr.is_root(fn):
             bad("foreign-is_in_tree", "a content-identical node outside the tree is reported as a member", path=p)
